@@ -54,7 +54,7 @@ def run_one(patch, tier):
             r = subprocess.run([os.path.join(VERIF, "bin", "check"), pid, "--tier", tier], env=env, stdout=subprocess.PIPE, stderr=subprocess.STDOUT, text=True)
             sigs = re.findall(r"signature: (.*)", r.stdout)
             out["results"][pid] = {"exit": r.returncode, "wall_s": round(time.time() - t0), "signatures": sigs[:4],
-                                   "tail": "" if r.returncode == 1 else r.stdout[-400:]}
+                                   "tail": "" if (r.returncode == 1 and sigs) else r.stdout[-700:]}
             shutil.rmtree(tmp, ignore_errors=True)
     finally:
         subprocess.run(["git", "-C", "/repo", "worktree", "remove", "--force", wt], stdout=subprocess.DEVNULL, stderr=subprocess.DEVNULL)
@@ -79,7 +79,7 @@ def main():
             status = "CAUGHT by " + ",".join(caught) if caught else ("ERROR " + res.get("error", "") if "error" in res else "MISSED")
             print(f"{res['patch']}: {status}")
             for p, r in res.get("results", {}).items():
-                print(f"    {p}: exit={r['exit']} {r['wall_s']}s {'; '.join(r['signatures'])} {r['tail'][-200:] if r['exit'] != 1 else ''}")
+                print(f"    {p}: exit={r['exit']} {r['wall_s']}s {'; '.join(r['signatures'])} {r['tail'][-600:]}")
             sys.stdout.flush()
 
 
